@@ -475,6 +475,42 @@ func drawC14(t *rapid.T) any {
 // element types in five positions. The reference model decides which of them
 // are mismatches (null is not).
 func enumC14(emit func(c any) bool) {
+	// deep documents abandoned at their deepest point, then Reset: the unfolder's
+	// stacks start in inline arrays of 32 slots and move to the heap beyond that;
+	// whatever Reset does with the slots a document left in use must work on both
+	// sides of that boundary (depths around 16 = 2 entries per level, and 32/33)
+	ifcT := gomodel.TypeDesc{Kind: "iface"}
+	nT := gomodel.TypeDesc{Kind: "pool", Pool: "N"}
+	sliceT := ifcT
+	for i := 0; i < 70; i++ {
+		e := sliceT
+		sliceT = gomodel.TypeDesc{Kind: "slice", Elem: &e}
+	}
+	for _, depth := range []int{8, 15, 16, 17, 18, 20, 31, 32, 33, 34, 40, 70} {
+		var arrs, objs, nexts []model.Ev
+		for i := 0; i < depth; i++ {
+			arrs = append(arrs, model.Ev{K: model.KArrStart, L: -1})
+			objs = append(objs, model.Ev{K: model.KObjStart, L: -1}, model.Ev{K: model.KKey, S: []byte("k")})
+			nexts = append(nexts, model.Ev{K: model.KObjStart, L: -1}, model.Ev{K: model.KKeyRef, S: []byte("next")})
+		}
+		for _, c := range []*C14Case{
+			{Type: ifcT, Evs: arrs, Abandon: len(arrs), Kind: "deep_abandon"},
+			{Type: ifcT, Evs: objs, Abandon: len(objs), Kind: "deep_abandon"},
+			{Type: nT, Evs: nexts, Abandon: len(nexts), Kind: "deep_abandon"},
+			{Type: sliceT, Evs: arrs, Abandon: len(arrs), Kind: "deep_abandon"},
+			// ... and ended by a mismatch at the deepest point instead
+			{Type: nT, Evs: append(append([]model.Ev{}, nexts...), model.Ev{K: model.KStr, S: []byte("x")}), Abandon: -1, Kind: "deep_mismatch"},
+			{Type: sliceT, Evs: append(append([]model.Ev{}, arrs...), model.Ev{K: model.KObjStart, L: -1}), Abandon: -1, Kind: "deep_mismatch"},
+		} {
+			if c.Abandon == len(c.Evs) {
+				// "abandoned": every event is delivered, the document is never closed
+				c.Abandon = -1
+			}
+			if !emit(c) {
+				return
+			}
+		}
+	}
 	for _, sc := range unfoldScenarios {
 		if !emit(&C14Case{Type: gomodel.TypeDesc{Kind: "int"}, Abandon: -1, Kind: "scenario:" + sc}) {
 			return
@@ -535,7 +571,7 @@ func init() {
 	register(&Property{
 		ID:            "C14",
 		Enum:          enumC14,
-		Rule:          "(stream, target type) pairs: (i) drawn independently (mostly mismatching), (ii) a matching perturbed stream (C13 renderer) with one subtree replaced by another random value at a drawn position and depth (scalar<->array<->object, key where none is expected, wrong element kinds, typed containers), (iii) matching streams whose container start announces 2^16..2^63-1 elements that are not delivered; 1 in 4 targets already hold a generated value (non-nil slices with spare capacity, maps with entries, allocated pointers; safety oracles only); optionally abandoned after a drawn event index; 1 in 8 cases repeat the (abandoned or failing) document 1..1100 more times, each time after Reset + SetTarget, with the same outcome required; then Reset + SetTarget(new variable of the same type) + a matching perturbed document of a second value (members omitted), then Reset + SetTarget + a fixed probe document of a fixed type. Deterministic part: every scalar event kind and the wrong container kind where a struct, slice, map, pointer-to-struct, slice-of-struct, map-of-struct or a scalar of each of the 14 kinds is expected, as target, map value, slice element, struct field and pointer target. Oracle: no panic; TotalAlloc <= 256KiB + 512 B/event + 8 B/string byte; the target sits between sentinel words that must stay intact; a success must equal the reference assignment model on the same stream (compared when every number fits); after each Reset+SetTarget the result, outcome and stack depths equal a new unfolder's on the same document. non-trivial = an error at depth >= 1 or abandonment inside a nested container; distinct by case hash. The thorough tier repeats the search with the -race build (checkptr)",
+		Rule:          "(stream, target type) pairs: (i) drawn independently (mostly mismatching), (ii) a matching perturbed stream (C13 renderer) with one subtree replaced by another random value at a drawn position and depth (scalar<->array<->object, key where none is expected, wrong element kinds, typed containers), (iii) matching streams whose container start announces 2^16..2^63-1 elements that are not delivered; 1 in 4 targets already hold a generated value (non-nil slices with spare capacity, maps with entries, allocated pointers; safety oracles only); optionally abandoned after a drawn event index; 1 in 8 cases repeat the (abandoned or failing) document 1..1100 more times, each time after Reset + SetTarget, with the same outcome required; then Reset + SetTarget(new variable of the same type) + a matching perturbed document of a second value (members omitted), then Reset + SetTarget + a fixed probe document of a fixed type. Deterministic part: documents of depth 8..70 (nested arrays / objects into interface{}, the recursive struct N, a 70-level slice type) left open at their deepest point or ended there by a mismatch, then Reset; every scalar event kind and the wrong container kind where a struct, slice, map, pointer-to-struct, slice-of-struct, map-of-struct or a scalar of each of the 14 kinds is expected, as target, map value, slice element, struct field and pointer target. Oracle: no panic; TotalAlloc <= 256KiB + 512 B/event + 8 B/string byte; the target sits between sentinel words that must stay intact; a success must equal the reference assignment model on the same stream (compared when every number fits); after each Reset+SetTarget the result, outcome and stack depths equal a new unfolder's on the same document. non-trivial = an error at depth >= 1 or abandonment inside a nested container; distinct by case hash. The thorough tier repeats the search with the -race build (checkptr)",
 		New:           func() any { return &C14Case{} },
 		Draw:          drawC14,
 		Check:         checkC14,
